@@ -1154,7 +1154,7 @@ def explore(ctx):
     check_tables(ctx)
     tabs = ctx.model([["tables"]])[0]
     ctx.notes.append("generated tables: " + json.dumps(tabs))
-    trees, cases, batch = run_all(ctx, ctx.budget(250, 2500), ctx.budget(4, 6), ctx.budget(4, 6))
+    trees, cases, batch = run_all(ctx, ctx.budget(200, 2500), ctx.budget(4, 6), ctx.budget(4, 6))
     # every branch of the model must have been reached
     need = {"mode": ["static", "allow", "force", "allow+force"], "result": ["ok", "LoadingError", "ModuleNotFoundError", "ImportError", "FileNotFoundError"],
             "model_branch": ["orphan", "skip.so", "skip.py", "skip.pyc"]}
